@@ -200,4 +200,40 @@ pub proof fn lemma_run_ops_acc(rel: Rel, st: St, ops: Seq<DiffOp>)
     }
 }
 
+// ---------------------------------------------------------------------------------------------
+// C09 (latest insertion position): op lists and the scripts they stand for
+// ---------------------------------------------------------------------------------------------
+/// the script an op list stands for: op-level and event-level statements agree
+pub proof fn lemma_ins_stuck_evs(rel: Rel, ops: Seq<DiffOp>)
+  requires ins_stuck(rel, ops)
+  ensures ev_stuck(rel, evs_of(ops)), ev_stuck(rel, evs_of(ops).push(Ev::Finish))
+{
+    let s = evs_of(ops); let s2 = s.push(Ev::Finish);
+    assert forall|i: int| 0 <= i && i + 1 < s.len() implies #[trigger] ev_stuck_at(rel, s, i) by {
+        assert(ins_stuck_at(rel, ops, i));
+        assert(s[i] == ev_of(ops[i]) && s[i + 1] == ev_of(ops[i + 1]));
+    }
+    assert forall|i: int| 0 <= i && i + 1 < s2.len() implies #[trigger] ev_stuck_at(rel, s2, i) by {
+        if i + 1 < s.len() {
+            assert(ev_stuck_at(rel, s, i));
+            assert(s2[i] == s[i] && s2[i + 1] == s[i + 1]);
+        } else {
+            assert(s2[i + 1] == Ev::Finish);
+        }
+    }
+}
+
+pub proof fn lemma_ev_late_ops(rel: Rel, ops: Seq<DiffOp>)
+  requires ev_late(rel, evs_of(ops))
+  ensures ins_late(rel, ops)
+{
+    let s = evs_of(ops);
+    assert forall|i: int| 0 <= i < ops.len() implies #[trigger] ins_late_at(rel, ops, i) by {
+        if i + 1 < ops.len() {
+            assert(ev_late_at(rel, s, i));
+            assert(s[i] == ev_of(ops[i]) && s[i + 1] == ev_of(ops[i + 1]));
+        }
+    }
+}
+
 } // verus!
